@@ -147,9 +147,14 @@ func VerifLemma_C05C_RPCStandardName() {
 	// (X == M and X == S+M are the two standard names), or Empty
 	var typeName, last string
 	isEmpty := false
-	form := verifNondetChoice(3)
+	form := verifNondetChoice(4)
 	if form == 0 {
 		typeName, last, isEmpty = "google.protobuf.Empty", "Empty", true
+	} else if form == 3 {
+		// a message that is merely *named* Empty (user-defined, nested, or in a look-alike package) is not the
+		// well-known type: the allow option does not apply to it
+		last = "Empty"
+		typeName = []string{"Empty", "pkg.v1.Empty", "Outer.Empty", "google.protobuf.v2.Empty", "x.google.protobuf.Empty", "google.protobuf.Empty.Empty"}[verifNondetChoice(6)]
 	} else {
 		x := verifNondetString(verifParam("LN"))
 		for i := 0; i < len(x); i++ {
